@@ -507,8 +507,7 @@ func keyshareResponsesRule(P *Program, R *Report) {
 			}
 			newProto := false
 			for _, a := range controllingConds(c.Block()) {
-				a = normAtom(a)
-				if desc(a.V) == "(<gabi.ProofP>.P==nil)" && a.Want == True {
+				if t, w := condText(a); t == "(<gabi.ProofP>.P==nil)" && w == True {
 					newProto = true
 				}
 			}
@@ -581,9 +580,8 @@ func keyshareCommitmentsRule(P *Program, R *Report) {
 			case strings.Contains(d, "[1024]"):
 				guarded := false
 				is1024 := func(a Atom) bool {
-					a = normAtom(a)
-					d := desc(a.V)
-					if a.Want != True {
+					d, w := condText(a)
+					if w != True {
 						return false
 					}
 					if d == "(call:big.(*Int).BitLen(arg#1[#i].N)==1024)" || d == "(call:big.(*Int).BitLen(arg#1[*].N)==1024)" {
